@@ -29,6 +29,7 @@ type genCfg struct {
 	oldEvRate float64       // share of evidence that is outside the window
 	badEvRate float64       // evidence the code is documented to halt on
 	missP    float64
+	bigWindow int // > 0: SignedBlocksWindow of the run (downtime mode, long runs)
 	roRate   float64 // read-only calls per position
 	restartRate float64
 	crashRate float64
@@ -134,6 +135,12 @@ func configFor(mode, tier string, r *core.Rng) genCfg {
 		}
 		c.maxTxs = r.Range(0, 2)
 		c.missP = []float64{0.3, 0.5, 0.7}[r.Intn(3)]
+		if r.Chance(0.03) {
+			// a few long runs with a window whose slot numbers need more than one byte, on a chain that outlives it
+			c.bigWindow = r.Range(256, 300)
+			c.blocks = c.bigWindow + r.Range(20, 90)
+			c.missP = 0.7
+		}
 		c.w["unjail"] = 12
 		c.evRate = 0.01
 	case "rewards":
@@ -820,7 +827,11 @@ func (g *gen) genParamSetup(bi int) {
 		set("pos/MaxValidators", uint64(r.Range(1, n+2)))
 	}
 	if r.Chance(0.8) || g.cfg.mode == "downtime" || g.cfg.mode == "jail" {
-		set("pos/SignedBlocksWindow", int64(r.Range(10, 40)))
+		w := int64(r.Range(10, 40))
+		if g.cfg.bigWindow > 0 {
+			w = int64(g.cfg.bigWindow)
+		}
+		set("pos/SignedBlocksWindow", w)
 	}
 	if r.Chance(0.6) {
 		fr := []string{"0.5", "0.5", "0", "1", "0.1", "0.9", "0.05", "0.333333333333333333", "0.45", "0.55"}[r.Intn(10)]
